@@ -122,6 +122,8 @@ func runC16(c *mon.Ctx) {
 	endpoints := []string{"https://idp.example.test/sso", "https://idp.example.test/sso?tenant=abc&x=1", "https://idp.example.test:8443/a/b/sso?next=%2Fhome", "http://idp.example.test/"}
 	kinds := []string{"authn-internal", "authn-doc", "logoutreq", "logoutresp"}
 	n := c.N(3000, 150000)
+	var prevPage, prevCopy []byte // a page handed out earlier must not change when later pages are built
+	var prevDesc string
 	for k := 0; k < n; k++ {
 		cs := c.Begin("post-form", k)
 		if cs == nil {
@@ -204,6 +206,10 @@ func runC16(c *mon.Ctx) {
 		}
 		cs.Input(page)
 		cs.Nontrivial(cs.Description())
+		if prevPage != nil && !bytes.Equal(prevPage, prevCopy) {
+			cs.Violation("earlier-page-overwritten", "building this page changed the bytes of a page returned earlier (%s): it now reads %q", prevDesc, trunc(string(prevPage), 200))
+		}
+		prevPage, prevCopy, prevDesc = page, append([]byte(nil), page...), cs.Description()
 		toks, terr := tokenize(page)
 		if terr != nil {
 			cs.Violation("tokenizer-error", "page does not tokenise: %v", terr)
